@@ -217,6 +217,50 @@ def _work(ctx: Ctx, item):
 
         ctx.hyp(one, gen.payloads(d, mode="accepted", extra_bytes=False), st.integers(0, 255), st.one_of(st.just(255), st.integers(0, 255)),
                 st.integers(0, 7), st.sampled_from(FORMATS), st.integers(0, 999999), st.integers(0, 999), max_examples=n, name="roundtrip")
+        # messages the APPLICATION builds (legal values chosen field by field, not obtained from the decoder): what the encoder makes of
+        # them must come back through the decoder of the same format, values within half a resolution step
+        from . import c09
+        from fractions import Fraction
+
+        def built(asg, fmt, d=d):
+            fields, removed, change, alt = asg
+            if removed is not None or any(a["expect"][0] in ("reject", "either") or a.get("outside_db") for a in fields):
+                return []
+            ctx.count()
+            m = c09.build_message(d, fields)
+            case = {"definition": d.key, "built": [[repr(a["value"]), repr(a["raw_value"])] for a in fields], "format": fmt}
+            try:
+                pks = encode(ck.Enc(), fmt, m)
+            except ValueError:
+                ctx.klass("built_encode_refused")
+                return []
+            payload = None
+            try:
+                text = ck.Enc().encode_actisense(m)
+                parts = text.split(" ")
+                payload = int.from_bytes(bytes.fromhex(parts[2]), "little") if len(parts) > 2 else 0
+            except Exception:
+                pass
+            if payload is not None and canboat.db().select(d.pgn, payload) is not d:
+                return []                      # non-match fields happen to carry a sibling's match values
+            ctx.klass("built_messages")
+            ctx.nt((d.key, "built", repr(case["built"]), fmt))
+            try:
+                back = decode_packets(fmt, pks, ("A000001.000", "00:00:01.000"))
+            except Exception as e:
+                if not d.supported:
+                    return []
+                return [(f"C06|built-roundtrip-error|{fmt}|{type(e).__name__}", f"the decoder rejects what the encoder made of a message of legal values: {type(e).__name__}: {e}", case)]
+            if back is None or back.id != d.id:
+                return [(f"C06|built-roundtrip-none|{fmt}", f"a message of legal values came back as {'nothing' if back is None else back.id}", case)]
+            out = []
+            for f, a, g in zip(d.fields, fields, back.fields):
+                if a["expect"][0] == "num" and a.get("target") is not None and f.type in ("NUMBER", "PGN", "DURATION") and not a.get("tol"):
+                    if g.value is None or abs(Fraction(g.value) - a["target"]) > f.res / 2 * (1 + Fraction(1, 10 ** 6)) + abs(a["target"]) * Fraction(1, 10 ** 12):
+                        out.append((f"C06|built-roundtrip-value|{fmt}|{d.key}/{f.id}", f"{f.id}: sent {float(a['target'])!r}, received {g.value!r}", case))
+            return out
+        if d.encodable:
+            ctx.hyp(built, c09.assignment(d), st.sampled_from(FORMATS), max_examples=max(6, n // 2), name="built", shrink=False, rounds=2)
         # the benign message in every format (deterministic floor)
         bp, bn, _ = gen.benign_payload(d)
         for fmt in FORMATS:
